@@ -273,6 +273,7 @@ CHECKS["C19"] = {
         rapid_job("sequences", "./verifh/c19", "TestElectricSequences|TestElectricConfigured", 4000, 30000),
         rapid_job("concurrent", "./verifh/c19", "TestElectricConcurrent", 500, 4000, shards_t=8),
         rapid_job("duels", "./verifh/c19", "TestElectricDuels", 60, 150, shards={Q: 6, T: 12}, timeout={Q: 400, T: 2400}),
+        enum_job("duel-pairs", "./verifh/c19", "TestElectricDuelPairs", shards={Q: 6, T: 12}, timeout={Q: 400, T: 2400}),
     ],
 }
 
@@ -377,6 +378,7 @@ CHECKS["C14"] = {
     "jobs": [
         rapid_job("triples", "./verifh/c14", "TestTripleSweep", 1500, 8000, shards={"quick": 8, "thorough": 16}, timeout={"quick": 600, "thorough": 3000}),
         rapid_job("stalled-reader", "./verifh/c14", "TestStalledReader", 3, 20, shards={"quick": 1, "thorough": 1}, timeout={"quick": 600, "thorough": 3000}),
+        rapid_job("light-fade", "./verifh/c14", "TestLightFadeInterrupted", 6, 25, shards={"quick": 4, "thorough": 8}, timeout={"quick": 600, "thorough": 3000}),
         rapid_job("stream-churn", "./verifh/c14", "TestPullStreamChurn", 30, 120, shards={"quick": 3, "thorough": 8}, timeout={"quick": 600, "thorough": 3000}),
     ],
 }
